@@ -11,24 +11,36 @@ import (
 
 func pt(p unsafe.Pointer) { vrt.AtomicPoint(uintptr(p)) }
 
+// ptRead is pt for operations that cannot change memory: a load is a scheduling point but not progress
+// (otherwise two goroutines spinning on a flag re-enable each other for ever while its owner never runs).
+func ptRead(p unsafe.Pointer) { vrt.AtomicPoint(uintptr(p)); vrt.NoProgress() }
+
+// casResult: a failed compare-and-swap changed nothing: no progress either.
+func casResult(ok bool) bool {
+	if !ok {
+		vrt.NoProgress()
+	}
+	return ok
+}
+
 func LoadInt32(a *int32) int32          { pt(unsafe.Pointer(a)); return atomic.LoadInt32(a) }
 func StoreInt32(a *int32, v int32)      { pt(unsafe.Pointer(a)); atomic.StoreInt32(a, v) }
 func AddInt32(a *int32, d int32) int32  { pt(unsafe.Pointer(a)); return atomic.AddInt32(a, d) }
 func SwapInt32(a *int32, v int32) int32 { pt(unsafe.Pointer(a)); return atomic.SwapInt32(a, v) }
 func CompareAndSwapInt32(a *int32, o, n int32) bool {
 	pt(unsafe.Pointer(a))
-	return atomic.CompareAndSwapInt32(a, o, n)
+	return casResult(atomic.CompareAndSwapInt32(a, o, n))
 }
 
 type Int32 struct{ v atomic.Int32 }
 
-func (x *Int32) Load() int32        { pt(unsafe.Pointer(x)); return x.v.Load() }
+func (x *Int32) Load() int32        { ptRead(unsafe.Pointer(x)); return x.v.Load() }
 func (x *Int32) Store(v int32)      { pt(unsafe.Pointer(x)); x.v.Store(v) }
 func (x *Int32) Add(d int32) int32  { pt(unsafe.Pointer(x)); return x.v.Add(d) }
 func (x *Int32) Swap(v int32) int32 { pt(unsafe.Pointer(x)); return x.v.Swap(v) }
 func (x *Int32) CompareAndSwap(o, n int32) bool {
 	pt(unsafe.Pointer(x))
-	return x.v.CompareAndSwap(o, n)
+	return casResult(x.v.CompareAndSwap(o, n))
 }
 
 func LoadInt64(a *int64) int64          { pt(unsafe.Pointer(a)); return atomic.LoadInt64(a) }
@@ -37,18 +49,18 @@ func AddInt64(a *int64, d int64) int64  { pt(unsafe.Pointer(a)); return atomic.A
 func SwapInt64(a *int64, v int64) int64 { pt(unsafe.Pointer(a)); return atomic.SwapInt64(a, v) }
 func CompareAndSwapInt64(a *int64, o, n int64) bool {
 	pt(unsafe.Pointer(a))
-	return atomic.CompareAndSwapInt64(a, o, n)
+	return casResult(atomic.CompareAndSwapInt64(a, o, n))
 }
 
 type Int64 struct{ v atomic.Int64 }
 
-func (x *Int64) Load() int64        { pt(unsafe.Pointer(x)); return x.v.Load() }
+func (x *Int64) Load() int64        { ptRead(unsafe.Pointer(x)); return x.v.Load() }
 func (x *Int64) Store(v int64)      { pt(unsafe.Pointer(x)); x.v.Store(v) }
 func (x *Int64) Add(d int64) int64  { pt(unsafe.Pointer(x)); return x.v.Add(d) }
 func (x *Int64) Swap(v int64) int64 { pt(unsafe.Pointer(x)); return x.v.Swap(v) }
 func (x *Int64) CompareAndSwap(o, n int64) bool {
 	pt(unsafe.Pointer(x))
-	return x.v.CompareAndSwap(o, n)
+	return casResult(x.v.CompareAndSwap(o, n))
 }
 
 func LoadUint32(a *uint32) uint32           { pt(unsafe.Pointer(a)); return atomic.LoadUint32(a) }
@@ -57,18 +69,18 @@ func AddUint32(a *uint32, d uint32) uint32  { pt(unsafe.Pointer(a)); return atom
 func SwapUint32(a *uint32, v uint32) uint32 { pt(unsafe.Pointer(a)); return atomic.SwapUint32(a, v) }
 func CompareAndSwapUint32(a *uint32, o, n uint32) bool {
 	pt(unsafe.Pointer(a))
-	return atomic.CompareAndSwapUint32(a, o, n)
+	return casResult(atomic.CompareAndSwapUint32(a, o, n))
 }
 
 type Uint32 struct{ v atomic.Uint32 }
 
-func (x *Uint32) Load() uint32         { pt(unsafe.Pointer(x)); return x.v.Load() }
+func (x *Uint32) Load() uint32         { ptRead(unsafe.Pointer(x)); return x.v.Load() }
 func (x *Uint32) Store(v uint32)       { pt(unsafe.Pointer(x)); x.v.Store(v) }
 func (x *Uint32) Add(d uint32) uint32  { pt(unsafe.Pointer(x)); return x.v.Add(d) }
 func (x *Uint32) Swap(v uint32) uint32 { pt(unsafe.Pointer(x)); return x.v.Swap(v) }
 func (x *Uint32) CompareAndSwap(o, n uint32) bool {
 	pt(unsafe.Pointer(x))
-	return x.v.CompareAndSwap(o, n)
+	return casResult(x.v.CompareAndSwap(o, n))
 }
 
 func LoadUint64(a *uint64) uint64           { pt(unsafe.Pointer(a)); return atomic.LoadUint64(a) }
@@ -77,18 +89,18 @@ func AddUint64(a *uint64, d uint64) uint64  { pt(unsafe.Pointer(a)); return atom
 func SwapUint64(a *uint64, v uint64) uint64 { pt(unsafe.Pointer(a)); return atomic.SwapUint64(a, v) }
 func CompareAndSwapUint64(a *uint64, o, n uint64) bool {
 	pt(unsafe.Pointer(a))
-	return atomic.CompareAndSwapUint64(a, o, n)
+	return casResult(atomic.CompareAndSwapUint64(a, o, n))
 }
 
 type Uint64 struct{ v atomic.Uint64 }
 
-func (x *Uint64) Load() uint64         { pt(unsafe.Pointer(x)); return x.v.Load() }
+func (x *Uint64) Load() uint64         { ptRead(unsafe.Pointer(x)); return x.v.Load() }
 func (x *Uint64) Store(v uint64)       { pt(unsafe.Pointer(x)); x.v.Store(v) }
 func (x *Uint64) Add(d uint64) uint64  { pt(unsafe.Pointer(x)); return x.v.Add(d) }
 func (x *Uint64) Swap(v uint64) uint64 { pt(unsafe.Pointer(x)); return x.v.Swap(v) }
 func (x *Uint64) CompareAndSwap(o, n uint64) bool {
 	pt(unsafe.Pointer(x))
-	return x.v.CompareAndSwap(o, n)
+	return casResult(x.v.CompareAndSwap(o, n))
 }
 
 func LoadUintptr(a *uintptr) uintptr           { pt(unsafe.Pointer(a)); return atomic.LoadUintptr(a) }
@@ -100,22 +112,22 @@ func SwapUintptr(a *uintptr, v uintptr) uintptr {
 }
 func CompareAndSwapUintptr(a *uintptr, o, n uintptr) bool {
 	pt(unsafe.Pointer(a))
-	return atomic.CompareAndSwapUintptr(a, o, n)
+	return casResult(atomic.CompareAndSwapUintptr(a, o, n))
 }
 
 type Uintptr struct{ v atomic.Uintptr }
 
-func (x *Uintptr) Load() uintptr          { pt(unsafe.Pointer(x)); return x.v.Load() }
+func (x *Uintptr) Load() uintptr          { ptRead(unsafe.Pointer(x)); return x.v.Load() }
 func (x *Uintptr) Store(v uintptr)        { pt(unsafe.Pointer(x)); x.v.Store(v) }
 func (x *Uintptr) Add(d uintptr) uintptr  { pt(unsafe.Pointer(x)); return x.v.Add(d) }
 func (x *Uintptr) Swap(v uintptr) uintptr { pt(unsafe.Pointer(x)); return x.v.Swap(v) }
 func (x *Uintptr) CompareAndSwap(o, n uintptr) bool {
 	pt(unsafe.Pointer(x))
-	return x.v.CompareAndSwap(o, n)
+	return casResult(x.v.CompareAndSwap(o, n))
 }
 
 func LoadPointer(a *unsafe.Pointer) unsafe.Pointer {
-	pt(unsafe.Pointer(a))
+	ptRead(unsafe.Pointer(a))
 	return atomic.LoadPointer(a)
 }
 func StorePointer(a *unsafe.Pointer, v unsafe.Pointer) {
@@ -128,24 +140,27 @@ func SwapPointer(a *unsafe.Pointer, v unsafe.Pointer) unsafe.Pointer {
 }
 func CompareAndSwapPointer(a *unsafe.Pointer, o, n unsafe.Pointer) bool {
 	pt(unsafe.Pointer(a))
-	return atomic.CompareAndSwapPointer(a, o, n)
+	return casResult(atomic.CompareAndSwapPointer(a, o, n))
 }
 
 type Bool struct{ v atomic.Bool }
 
-func (x *Bool) Load() bool                    { pt(unsafe.Pointer(x)); return x.v.Load() }
-func (x *Bool) Store(v bool)                  { pt(unsafe.Pointer(x)); x.v.Store(v) }
-func (x *Bool) Swap(v bool) bool              { pt(unsafe.Pointer(x)); return x.v.Swap(v) }
-func (x *Bool) CompareAndSwap(o, n bool) bool { pt(unsafe.Pointer(x)); return x.v.CompareAndSwap(o, n) }
+func (x *Bool) Load() bool       { ptRead(unsafe.Pointer(x)); return x.v.Load() }
+func (x *Bool) Store(v bool)     { pt(unsafe.Pointer(x)); x.v.Store(v) }
+func (x *Bool) Swap(v bool) bool { pt(unsafe.Pointer(x)); return x.v.Swap(v) }
+func (x *Bool) CompareAndSwap(o, n bool) bool {
+	pt(unsafe.Pointer(x))
+	return casResult(x.v.CompareAndSwap(o, n))
+}
 
 type Pointer[T any] struct{ v atomic.Pointer[T] }
 
-func (x *Pointer[T]) Load() *T     { pt(unsafe.Pointer(x)); return x.v.Load() }
+func (x *Pointer[T]) Load() *T     { ptRead(unsafe.Pointer(x)); return x.v.Load() }
 func (x *Pointer[T]) Store(v *T)   { pt(unsafe.Pointer(x)); x.v.Store(v) }
 func (x *Pointer[T]) Swap(v *T) *T { pt(unsafe.Pointer(x)); return x.v.Swap(v) }
 func (x *Pointer[T]) CompareAndSwap(o, n *T) bool {
 	pt(unsafe.Pointer(x))
-	return x.v.CompareAndSwap(o, n)
+	return casResult(x.v.CompareAndSwap(o, n))
 }
 
 type Value struct{ v atomic.Value }
@@ -155,5 +170,5 @@ func (x *Value) Store(v interface{})            { pt(unsafe.Pointer(x)); x.v.Sto
 func (x *Value) Swap(v interface{}) interface{} { pt(unsafe.Pointer(x)); return x.v.Swap(v) }
 func (x *Value) CompareAndSwap(o, n interface{}) bool {
 	pt(unsafe.Pointer(x))
-	return x.v.CompareAndSwap(o, n)
+	return casResult(x.v.CompareAndSwap(o, n))
 }
